@@ -669,6 +669,34 @@ def sym_sqrt(x):
         fac_m, rest = pull
         root = sym_sqrt(Sym.from_poly(rest))
         return root * Sym({(tuple((ai, ae // 2) for ai, ae in fac_m), ZKEY0): Fr(1)})
+    # canonical rational content: sqrt(g * q) with q primitive (integer coefficients, gcd 1) = (s / b) * sqrt(t * q) where g = a / b and
+    # a * b = s^2 * t with t square-free; makes sqrt(p / 36) and sqrt(p) / 6 the same term (needed for refined / barycentric geometry)
+    coeffs = list(p.values())
+    if coeffs and all(c.imag == 0 if isinstance(c, complex) else True for c in coeffs) and all(isinstance(c, Fr) for c in coeffs):
+        num = 0
+        den = 1
+        for c in coeffs:
+            num = math.gcd(num, abs(c.numerator))
+            den = den * c.denominator // math.gcd(den, c.denominator)
+        if num and (num != 1 or den != 1):
+            ab = num * den
+            sq, t, f = 1, 1, 2
+            r = ab
+            while f * f <= r:
+                cnt = 0
+                while r % f == 0:
+                    r //= f
+                    cnt += 1
+                sq *= f ** (cnt // 2)
+                if cnt % 2:
+                    t *= f
+                f += 1
+            t *= r
+            outer = Fr(sq, den)
+            scale = Fr(t) / Fr(num, den)      # p * scale = t * primitive
+            if outer != 1:
+                p2 = p_scale(p, scale)
+                return sym_sqrt(Sym.from_poly(p2)) * Sym.const(outer)
     key = ("sqrt", p_key(p))
     a = CTX.by_key.get(key)
     if a is None:
